@@ -31,7 +31,7 @@ META = {
                   "None/[] never stored, falsy values kept, clean failures, fixed values, has_custom, both encoders); (e) TLP instances; "
                   "(f) single-point corruption: every class x slot x 25 junk values/deletion: if strict parse accepts, the serialized JSON must "
                   "satisfy the frozen model under an independent validator.",
-    "level_text_more": 'Also: strict refusal of nested custom content in lists, embedded objects, extensions (given as dictionary or as ready-made instance) and hash names; 10 spellings of the TLP colour.',
+    "level_text_more": 'Also: strict refusal of nested custom content in lists, embedded objects, extensions (given as dictionary or as ready-made instance) and hash names; 10 spellings of the TLP colour. Malformed reference texts (extra \'--\' segments, tails) never accepted; the timestamp-slot jobs of C15 (what a slot emits has the digits its precision demands, whatever kind of value came in); the engine\'s custom property ranges over kept false-y and dropped (None, []) values.',
     "level_note": "The frozen model is audited, not independent of the pinned tree where the audit did not change it. Pattern validity is delegated "
                   "to stix2patterns; language-content 'contents' structure and co-constraints of classes without a hand-written oracle are outside "
                   "the claim. Table-driven obligations are selector-enumerated.",
